@@ -33,7 +33,7 @@ var plainNames = []string{"a", "b", "foo", "_x", "A1", "T", "Int", "String", "__
 
 // HostileStrings are string contents that stress escapes, quoting and Unicode handling.
 var HostileStrings = []string{"", "s", "hello world", `q"uote`, `back\slash`, "tab\there", "line\nbreak", "cr\rhere", "\b\f", "\u0007bell", "\u007fdel",
-	"\u0000nul", "\u001fus", "ünï", "世界", "\U0001F600", " ls", "\ufeffbom", "\ufffd", "/slash", `"""`, `trailing"`, `\"""`, "  lead", "trail  ", "#nocomment", "a,b]c}", `A`, "\u0085nel"}
+	"\u0000nul", "\u001fus", "ünï", "世界", "\U0001F600", " ls", "\ufeffbom", "\ufffd", "/slash", `"""`, `trailing"`, `\"""`, "  lead", "trail  ", "#nocomment", "a,b]c}", `A`, "\u0085nel", "100%", "%s %d %v", "100%% sure", "%!v(MISSING)", "50%x"}
 
 func (g *sgen) name() string { return g.anyName() }
 func (g *sgen) anyName() string {
@@ -194,7 +194,15 @@ func (g *sgen) composeNumber(float bool) string {
 	return sb.String()
 }
 
+// almostNumbers are lexemes one step away from a number: most are not tokens at all (the
+// reference lexer decides), a few are.
+var almostNumbers = []string{"-01", "-00", "-007", "-01.5", "-00e3", "00", "007", "01.5", "1.e3", "-", "-.5", "+1", "1e", "1e-", "1e+", "0x10", "1__0", "-0", "-0.0", "0.0.0",
+	"1.5.", "1..5", "--1", "-e1", "0e", "0.", ".0", "1E+-1", "9e999", "-9e999", "1e-999", "0123456789", "-0e0", "0e-0", "00.0", "-00.0"}
+
 func (g *sgen) intLit() string {
+	if g.chance(6) {
+		return g.pick(almostNumbers)
+	}
 	if g.chance(50) {
 		return g.composeNumber(false)
 	}
@@ -554,7 +562,7 @@ func Mutate(t *rapid.T, toks []string) []string {
 	i := rnd.Uniform(t, len(out), "mutAt")
 	alphabet := []string{"!", "$", "(", ")", "...", ":", "=", "@", "[", "]", "{", "|", "}", "&", "a", "on", "1", "1.5", `"s"`, `"""b"""`, "query", "fragment", "type", "true", "null",
 		// lexemes that are not tokens, or almost tokens
-		"01", "1.", ".5", "1e", "1e+", "-", "1.e5", "0x1F", "1_0", "-a", "1a", "1.5.5", "1e5e5", "\u0661", `"unterminated`, `"bad \q escape"`, `"\u12"`, `"\uZZZZ"`, `"\uD83D\uDE00"`, `"""unterminated`, `"""a\"""`,
+		"01", "-01", "-007", "-00.5", "1.", ".5", "1e", "1e+", "-", "1.e5", "0x1F", "1_0", "-a", "1a", "1.5.5", "1e5e5", "\u0661", `"unterminated`, `"bad \q escape"`, `"\u12"`, `"\uZZZZ"`, `"\uD83D\uDE00"`, `"""unterminated`, `"""a\"""`,
 		"\ufeff", "?", "~", "%", "^", "*", "\u0000", "\u00a0", "\u2026", "..", "....", "\u2028", "$$", "@@", "__", "_", "é"}
 	switch rnd.Uniform(t, 5, "mutKind") {
 	case 0: // delete
